@@ -20,32 +20,32 @@ na = {
 checks = {
 "C04": dict(
   level="exploration", design="DESIGN.md §4 C04",
-  text="Seeded search over (history, reset position, continuation) with fault injection, plus a fixed sweep of all short histories for periods 1..=4; every post-reset output is compared with a freshly constructed twin of the real code. Sampling evidence, not proof; exhaustive only inside the sweep's small bounds.",
+  text="Seeded search over (history, reset position or reset storm, continuation) with fault injection - incl. clone / serde copy / live sibling clone before the reset, Default-built subjects, long uptimes, windows to 2e5 slots - plus fixed corpora (all short histories over an 8-symbol alphabet for periods 1..=4, mega windows, huge EMA periods); every post-reset output is compared with a freshly constructed twin of the real code. Sampling evidence, not proof; exhaustive only inside the sweep's small bounds.",
   note="Trusts: the harness executor and comparison (bit-identical, else 1e-12 relative to the natural scale); oracle is the same real code freshly constructed, so defects common to both sides are invisible. Inputs are the f64 values the fault injector can produce (all IEEE classes).",
   technique="deterministic simulation with fault injection: seeded op scheduler (history / reset storm / continuation) + corrupt-feed injector, fresh-twin differential oracle, ddmin-minimised replay file"),
 "C05": dict(
   level="exploration", design="DESIGN.md §4 C05",
-  text="Seeded search over interleavings of operations on 2..8 live instances and clones (one thread; then 2..16 real OS threads released one op at a time by a turn token, with migration), Miri's seeded pre-emptive scheduler for truly concurrent threads, and a two-process digest comparison; every recorded output must equal a solo replay bit for bit. Sampling evidence; all merges of two 4-op sequences are enumerated for every indicator.",
+  text="Seeded search over interleavings of operations (feed, clone, clone_from, create, drop, reset, format) on 2..8 live instances (one thread; then 2..16 real OS threads released one op at a time by a turn token, with migration), a sample of scenarios each in its own fresh process, Miri's seeded pre-emptive scheduler feeding every kind's original and clone concurrently, and a two-process digest comparison; every recorded output must equal a solo replay bit for bit; the harness allocator hands out dirty memory. Sampling evidence; all merges of two 4-op sequences are enumerated for every indicator.",
   note="Trusts: harness scheduler/turn token, Miri's scheduler as the only source of intra-operation pre-emption (small scenarios, finite inputs). Interference that leaves no trace in any output is invisible.",
   technique="deterministic simulation: seeded op-level scheduler over instances/clones/threads (turn-token released OS threads, Miri seeded pre-emption), solo-replay oracle over the recorded history, two-process determinism diff"),
 "C06": dict(
   level="exploration", design="DESIGN.md §4 C06",
-  text="Simulated node with a simulated disk: checkpoints (bincode of the real serde derives) at seeded and at every-prefix positions, lost checkpoint writes, crashes that discard the in-memory instance, restore + journal replay, crash during replay, chained round-trips; afterwards every output is compared with the never-serialized shadow for at least sum(periods)+2 ticks. Sampling evidence, exhaustive over checkpoint positions only in the small sweep.",
+  text="Simulated node with a simulated disk: checkpoints (bincode of the real serde derives) at seeded and at every-prefix positions, lost checkpoint writes, crashes that discard the in-memory instance, restore (from a byte slice or an io::Read) + journal replay, crash during replay, chained round-trips (bincode, and serde_json where lossless); afterwards every output and period()/Display are compared with the never-serialized shadow for at least sum(periods)+2 ticks. Sampling evidence, exhaustive over checkpoint positions only in the small sweep.",
   note="Trusts: bincode 1.3 as the wire format; harness disk/journal model. Torn or bit-flipped checkpoint bytes are deliberately not injected (the property promises nothing about corrupted input).",
   technique="deterministic simulation with crash/restore fault injection: simulated disk + journal, seeded crash points, lost writes, crash-during-replay; shadow-instance differential oracle"),
 "C12": dict(
   level="fault_enumeration", design="DESIGN.md §4 C12",
-  text="Every fault value class (NaN, +-inf, +-MAX, subnormal, min positive, +-0, huge, negative, malformed bars, negative/zero volume) is delivered in every cursor state of every indicator for every period up to the stated bound (complete enumeration of that grid), followed by reset/clone/Display/Debug/serialize on the poisoned state; plus seeded swarm runs with periods to 4096 and thousands of wrap-arounds. Build has overflow checks and debug assertions on. A panic or a stalled run is the violation.",
+  text="Every fault value class (NaN, +-inf, +-MAX, subnormal, min positive, +-0, huge, negative, malformed bars, negative/zero volume) is delivered in every cursor state of every indicator for every period up to the stated bound (complete enumeration of that grid), followed by reset/clone/clone_from/Display/Debug/serialize on the poisoned state; plus fixed corpora for windows around 2^16, huge EMA periods and whole-number inputs near 2^53, seeded swarm runs with periods to 4096 and runs past 65536 calls, and (thorough) 2^32+ calls on one instance. Build has overflow checks and debug assertions on. A panic or a stalled run is the violation.",
   note="Trusts: catch_unwind + panic hook; the harness build profile (overflow-checks, debug-assertions). Outputs are not judged. Allocation failure is not injected.",
   technique="deterministic fault injection: complete enumeration of (cursor state x fault value) plus seeded swarm fault sequences, panic/hang oracle"),
 "C17": dict(
   level="exploration", design="DESIGN.md §4 C17",
-  text="Two replicas on one feed: a veteran that lived through seeded finite faults (spikes x10..x1e6, regime shifts, stalls, duplicates, drops, uptimes to 1e6 ticks) and a rookie cold-started at a seeded tick; from n (n+1) ticks after the cold start every output pair must agree within the property's tolerance (bits for comparison-only kinds). Sampling evidence of bounded recovery.",
+  text="Two replicas on one feed: a veteran that lived through seeded finite faults (spikes x10..x1e6, regime shifts, stalls, duplicates, drops, exact zeros and tiny values, negative prices/volumes, near-overflow giants, uptimes to 1.3e6 ticks quick / 3e6 thorough) and a rookie cold-started at a seeded tick; from n (n+1) ticks after the cold start every output pair must agree within the property's tolerance (bits for comparison-only kinds). Sampling evidence of bounded recovery.",
   note="Trusts: the harness's computation of M, tau(t) and the window-local condition numbers (ratio kinds are skipped on ill-conditioned windows and the skips are counted); SD/Bollinger widths compared as variances. Finite inputs only.",
   technique="deterministic simulation with fault injection: veteran/rookie replicas, cold-restart (state loss) and outlier faults at seeded positions, bounded-recovery oracle against the unfaulted replica"),
 "C18": dict(
   level="exploration", design="DESIGN.md §4 C18",
-  text="Allocator seam (per-thread counting global allocator) and simulated-disk quota, both set to B = 256 + 64*sum(periods), enforced over seeded long streams of adversarial shapes (up to 2e5 ticks quick, 1e6 thorough): checkpoint size at every early tick and at sparse probes later, live-heap growth after warm-up, transient peaks, clone footprint.",
+  text="Allocator seam (per-thread counting global allocator) and simulated-disk quota, both set to B = 256 + 64*sum(periods), enforced over seeded long streams of adversarial shapes (to 1e6 ticks quick, 8e6 thorough) with corrupt feeds, periodic resets, clone cycles and mid-stream restores, plus a sweep of every short poisoned prefix followed by long monotone tails: checkpoint size at every early tick and at sparse probes later, live-heap growth after warm-up, transient peaks, clone footprint.",
   note="Trusts: the Rust global-allocator hook as the measure of heap (the crate has no FFI/mmap); harness allocates nothing inside the accounting window (verified: measured growth is 0 bytes today).",
   technique="deterministic simulation with resource faults: memory cap via allocator seam and disk quota via simulated disk over long simulated time and seeded stream shapes"),
 }
